@@ -27,7 +27,7 @@ OWN = {
     'commit': {'C10', 'C04'}, 'flushall': {'C10'}, 'flushallc': {'C10', 'C04'}, 'close': {'C10', 'C04'},
     'reopen': {'C04'}, 'control': {'C11', 'C05'}, 'repair': {'C11', 'C05'}, 'schema': {'C11', 'C19', 'C17'},
     'tick': {'C10'}, 'drop': {'C01'}, 'failat': {'C06'},
-    'rmfile': {'C11'}, 'addfile': {'C11'}, 'rmentry': {'C11'}, 'rmschema': {'C11'}, 'corrupt': {'C11', 'C19'},
+    'rmfile': {'C11'}, 'addfile': {'C11'}, 'rmentry': {'C11'}, 'rmfentry': {'C11'}, 'rmschema': {'C11'}, 'corrupt': {'C11', 'C19'},
     'truncfile': {'C11', 'C19'}, 'stray': {'C11', 'C19'},
     'dump': set(), 'fs': {'C18'},
 }
@@ -50,7 +50,7 @@ def owners(mm):
     if 'reopen' in prev:
         own.add('C04')
         own.add('C18')
-    if any(k in ('rmfile', 'addfile', 'rmentry', 'rmschema', 'corrupt', 'truncfile', 'stray') for k in prev):
+    if any(k in ('rmfile', 'addfile', 'rmentry', 'rmfentry', 'rmschema', 'corrupt', 'truncfile', 'stray') for k in prev):
         own.add('C11')
     if 'failat' in prev:
         own.add('C06')
